@@ -23,6 +23,7 @@ import (
 	apps "github.com/pingcap/advanced-statefulset/client/apis/apps/v1"
 	clientset "github.com/pingcap/advanced-statefulset/client/client/clientset/versioned"
 	statefulsetlisters "github.com/pingcap/advanced-statefulset/client/client/listers/apps/v1"
+	apiequality "k8s.io/apimachinery/pkg/api/equality"
 	metav1 "k8s.io/apimachinery/pkg/apis/meta/v1"
 	utilruntime "k8s.io/apimachinery/pkg/util/runtime"
 	"k8s.io/client-go/util/retry"
@@ -52,6 +53,8 @@ type realStatefulSetStatusUpdater struct {
 func (ssu *realStatefulSetStatusUpdater) UpdateStatefulSetStatus(
 	set *apps.StatefulSet,
 	status *apps.StatefulSetStatus) error {
+	// the status the caller's copy of the set carried when status was computed from it
+	observed := set.Status.DeepCopy()
 	// don't wait due to limited number of clients, but backoff after the default number of steps
 	return retry.RetryOnConflict(retry.DefaultRetry, func() error {
 		set.Status = *status
@@ -64,6 +67,11 @@ func (ssu *realStatefulSetStatusUpdater) UpdateStatefulSetStatus(
 				// the set was deleted and re-created under the same name: the status computed
 				// for the old object must not be written onto the new one
 				return fmt.Errorf("StatefulSet %s/%s has been re-created (uid %v, was %v), dropping the stale status", set.Namespace, set.Name, updated.UID, set.UID)
+			}
+			if !apiequality.Semantic.DeepEqual(&updated.Status, observed) && !apiequality.Semantic.DeepEqual(&updated.Status, status) {
+				// somebody wrote a newer status after the copy status was computed from had been read:
+				// status is stale and must not replace it, the next sync computes a new one
+				return fmt.Errorf("StatefulSet %s/%s status has changed since it was read, dropping the stale status: %v", set.Namespace, set.Name, updateErr)
 			}
 			// make a copy so we don't mutate the shared cache
 			set = updated.DeepCopy()
